@@ -185,6 +185,8 @@ FULL_FAULTS = {
     "unknown-weight-keyword/method-WLSQ": ("S2", "ewdim"),
     "noniterable-weights/method-Lsq": ("S2", "ewdim"),
     "unknown-fit-method/empty-string": ("S2", "dim"),
+    "fit-method-none": ("S2", "dim"),  # the key is there, the value is None
+    "fit-method-none/with-unknown-weight-keyword": ("S2", "dim"),
     "hdc-limits-wrong-length": ("S4", "global"),
     "hdc-limit-tuple-wrong-length": ("S4", "dim"),
     "hdc-limit-scalar-entry": ("S4", "dim"),
@@ -254,7 +256,7 @@ def applicable(pipe, cls):
 
 
 SEQ_FIRST = ["unknown-fit-method@last", "unknown-weight-keyword@ew", "fitdesc-without-method@last", "dependence-fit-fails", "narrow-data", "too-few-intervals-data", "one-interval-data"]
-SEQ_SECOND = ["too-few-intervals-data", "data-wrong-columns", "fitdesc-wrong-length", "unknown-fit-method@0", "nan-in-data", "narrow-data"]
+SEQ_SECOND = ["too-few-intervals-data", "data-wrong-columns", "fitdesc-wrong-length", "unknown-fit-method@0", "nan-in-data", "narrow-data", "resubmit-the-rejected-fit-descriptions"]
 
 
 def seq_cases():
@@ -270,6 +272,8 @@ def seq_cases():
             for b in SEQ_SECOND:
                 if b == "too-few-intervals-data" and any(full_pipe(bi)["dims"][j]["slicer"]["kind"] == "points" for j in _conditioning_dims(full_pipe(bi))):
                     continue  # intervals of equal *counts* do not get fewer when the values coincide
+                if b == "resubmit-the-rejected-fit-descriptions" and a not in ("unknown-fit-method@last", "unknown-weight-keyword@ew", "fitdesc-without-method@last"):
+                    continue  # only a rejected *fit description* can be handed in again
                 out.append({"kind": "seq", "base": bi, "faults": [{"cls": a, "pos": None}, {"cls": b, "pos": None}]})
     return out
 
@@ -400,6 +404,7 @@ def run_sequence(pipe, faults):
     ew = [i for i, d in enumerate(pipe["dims"]) if d["family"] == "ExpWeibull"]
     raised = []
     last_exc = None
+    prev_fd = None
     for f in faults:
         fd = copy.deepcopy(pipe["fit_desc"])
         D = data
@@ -423,6 +428,12 @@ def run_sequence(pipe, faults):
                 col = D[:, j]
                 keep = np.arange(len(col)) % 33 == 0
                 D[:, j] = np.where(keep, col, float(np.median(col)))
+        elif c == "resubmit-the-rejected-fit-descriptions":
+            # the caller hands the very same list (and dicts) in again
+            if prev_fd is not None:
+                fd = prev_fd
+            else:
+                fd[n - 1] = {"weights": None}  # a fresh model: the same ill-formed description, first time
         elif c == "narrow-data":
             # all conditioning values inside (0.2, 1.8): two intervals of the default width 1, both well
             # filled - fewer than the three demanded
@@ -443,6 +454,7 @@ def run_sequence(pipe, faults):
         elif c == "nan-in-data":
             D = data.copy()
             D[5, 0] = np.nan
+        prev_fd = fd
         try:
             with seams.OptimiserShim(fail_at=shim_fail):
                 model.fit(D, fd)
@@ -666,6 +678,10 @@ def run_pipeline(pipe, faults, run=None):
             fit_desc[i] = {"method": "Lsq", "weights": 3.5}
         for i in anyf("unknown-fit-method/empty-string"):
             fit_desc[i] = {"method": ""}
+        for i in anyf("fit-method-none"):
+            fit_desc[i] = {"method": None}
+        for i in anyf("fit-method-none/with-unknown-weight-keyword"):
+            fit_desc[i] = {"method": None, "weights": "quartic"}
         if has("fitdesc-one-entry-short"):
             fit_desc = fit_desc[:-1]
         if has("fitdesc-empty-list"):
